@@ -7,6 +7,7 @@ Stubbed: the kernel's file layer (sim.fs.SimFS), appdirs.user_cache_dir
 (virtual root), pid, clock.
 """
 
+import errno
 import hashlib
 import os
 import traceback
@@ -206,6 +207,10 @@ class C36Engine(Engine):
                 n_crash_budget -= 1
                 a["die_at"] = 1 + tape.choose("die_at", est + 4)
                 a["torn_frac"] = tape.uniform("torn", 0.0, 1.0)
+            elif tape.chance("disk_full_once", 0.12):
+                # transient disk-full: the first write at or after this step fails with ENOSPC after a partial write
+                a["enospc_at"] = 1 + tape.choose("enospc_at", est + 4)
+                a["enospc_frac"] = tape.uniform("enospc_frac", 0.0, 1.0)
             actors.append(a)
         return {"n": n, "bufsize": bufsize, "read_chunk": chunk, "style": style, "total_tips": total_tips,
                 "distr": distr, "actors": actors}
@@ -221,7 +226,8 @@ class C36Engine(Engine):
         n, distr, tt = spec["n"], spec["distr"], spec["total_tips"]
         ref = self.reference(n, distr, tt)
         log.add("SPEC", n, spec["bufsize"], spec["read_chunk"], spec["style"], tt, distr,
-                [(a["die_at"], a.get("torn_k"), round(a["torn_frac"], 6), a.get("n", n)) for a in spec["actors"]])
+                [(a["die_at"], a.get("torn_k"), round(a["torn_frac"], 6), a.get("n", n), a.get("enospc_at"),
+                  round(a.get("enospc_frac", 0.0), 6)) for a in spec["actors"]])
         w = simfs.World(tape, log, {"bufsize": spec["bufsize"], "read_chunk": spec["read_chunk"],
                                     "style": spec["style"]}, record_steps=record_steps)
 
@@ -250,6 +256,9 @@ class C36Engine(Engine):
             w.spawn(f"run{i}", fn, die_at=a["die_at"], torn_frac=a["torn_frac"], torn_k=a.get("torn_k"))
             w.procs[-1].kind = a.get("kind", "cct")
             w.procs[-1].n = n_
+            if a.get("enospc_at"):
+                w.procs[-1].enospc_at = a["enospc_at"]
+                w.procs[-1].enospc_frac = a.get("enospc_frac", 0.0)
         if len(sizes) > 1:
             w.probe("two_table_sizes_in_one_directory")
         w.run(max_steps=60000)
@@ -306,6 +315,12 @@ class C36Engine(Engine):
             return
         if p.state == "error":
             e = p.error
+            if p.enospc_fired and isinstance(e, OSError) and getattr(e, "errno", None) == errno.ENOSPC:
+                # deliberate, narrow relaxation: a run that was handed a disk-full error may fail with exactly that
+                # error; it must not return wrong data, and later runs are judged as always
+                w.probe("run_failed_with_injected_enospc")
+                w.log.add(p.pid, "JUDGE", "enospc-propagated")
+                return
             tb = traceback.extract_tb(e.__traceback__)
             fn = "?"
             for fr in tb:
